@@ -104,6 +104,7 @@ def plan_for(prop, tier):
             variants=["asan", "gzero", "gpat"], level="fault_enumeration", assumptions=ASSUME_COMMON + [
                 "storage faults are explicit byte transforms of a well-formed base (shipped file or synthetic recipe); stream faults are injected by SimSource",
                 "memory safety / UB are judged by ASan and by UBSan handlers wrapped at link time (every report is attributed to its run, never de-duplicated)",
+                "a sample of runs is additionally executed on the uninstrumented build under valgrind memcheck; only reports with a cctz frame are judged",
                 "reads of uninitialised automatics are judged by the digest differential between g++ -ftrivial-auto-var-init=zero and =pattern builds, heap by M_PERTURB between two loads in one process; MSan is unusable here",
                 "termination is judged by a cap on stream calls, a scheduler step cap and a CPU-time watchdog (6 s against a typical 1 ms)",
                 "loads whose header asks for more than the heap budget (8 or 64 MiB) are skipped under the property's memory proviso and counted"],
@@ -115,6 +116,7 @@ def plan_for(prop, tier):
                 dict(kind="worker", name="asan-random", variant="asan", part="", runs=100000 if q else 3000000, block=1000, hash_mod=50, key_mod=1 if q else 16),
                 dict(kind="worker", name="asan-sweep-trunc-eio", variant="asan", part="sweep", runs=-1, block=500, hash_mod=50, key_mod=1),
                 dict(kind="digestdiff", name="gzero-vs-gpat", part="", runs=100000 if q else 1500000, block=2000),
+                dict(kind="valgrind", name="memcheck-sample", part="", first=0, stride=6151, count=40 if q else 250, blocks=16 if q else 64),
             ] + ([] if q else [dict(kind="worker", name="asan-flips", variant="asan", part="flips", runs=-1, block=2000, hash_mod=200, key_mod=4),
                                dict(kind="digestdiff", name="gzero-vs-gpat-sweep", part="sweep", runs=-1, block=2000)]))
     return None
@@ -311,7 +313,41 @@ def execute_plan(prop, tier, seed, plan, say):
     return dict(violations=violations, machinery=machinery, coverage=cov)
 
 
-EXTRA_STAGES = {"digestdiff": stage_digestdiff}
+def stage_valgrind(st, prop, tier, seed, say):
+    """A sample of runs on the uninstrumented build under memcheck: uninitialised-value use and invalid
+    accesses inside cctz, independent of what the heap happens to contain."""
+    out = dict(machinery=[], violations=[], evaluations=0, keys=[], samples=[])
+    t0 = time.time()
+    blocks = [(st["first"] + i * st["stride"], st["count"]) for i in range(st["blocks"])]
+    def one(b):
+        return b, R.valgrind_block(prop, tier, seed, st["part"], b[0], b[1])
+    with cf.ThreadPoolExecutor(max_workers=R.NPROC) as ex:
+        results = list(ex.map(one, blocks))
+    bad_blocks = 0
+    for (start, count), (rc, err) in results:
+        out["evaluations"] += count
+        if rc is None:
+            out["machinery"].append("valgrind block %d timed out" % start)
+            continue
+        if rc not in (0, 99):
+            out["machinery"].append("valgrind block %d: rc=%s %s" % (start, rc, (err or "")[-500:]))
+            continue
+        if rc == 99 and R.classify_valgrind(err):
+            bad_blocks += 1
+            # which run?  execute each one alone under memcheck
+            for idx in range(start, start + count):
+                case = R.generated_case("gzero", prop, tier, seed, st["part"], idx)
+                classes, raw = R.valgrind_case(case)
+                if classes:
+                    out["violations"].append(dict(run=idx, cls=classes[0], site="memcheck report with a cctz frame", detail=raw.get("stderr", "")[-1500:], tags=[],
+                                                  case=case, variant="gzero", part=st["part"], rerun_same=True, valgrind=True))
+                    break
+    out["record"] = dict(name=st["name"], build="gzero under valgrind memcheck", runs=out["evaluations"], blocks_with_reports=bad_blocks, wall_s=round(time.time() - t0, 1))
+    say("  stage %-28s runs=%d blocks_with_cctz_reports=%d (%.1fs)" % (st["name"], out["evaluations"], bad_blocks, time.time() - t0))
+    return out
+
+
+EXTRA_STAGES = {"digestdiff": stage_digestdiff, "valgrind": stage_valgrind}
 
 
 def _slug(s):
@@ -335,6 +371,26 @@ def report_violation(prop, tier, seed, cls, vs, say):
         return dict(machinery="no replayable case for %s (run %s, stage %s)" % (cls, v["run"], v.get("stage")))
     if v.get("differential"):
         return report_differential(prop, tier, seed, cls, v, case)
+    if v.get("valgrind"):
+        classes, raw = R.valgrind_case(case)
+        classes2, _ = R.valgrind_case(case)
+        if cls not in classes or cls not in classes2:
+            return dict(machinery="memcheck report for run %s did not reproduce (%s / %s)" % (v["run"], classes, classes2))
+        cur, execs = case, 0
+        for desc, cand in R._candidates(case):
+            execs += 1
+            c3, _ = R.valgrind_case(cand)
+            if cls in c3:
+                cur = cand
+            if execs >= 12:
+                break
+        os.makedirs(os.path.join(VERIF, "replays"), exist_ok=True)
+        path = os.path.join(VERIF, "replays", "%s-%s-%d-%s.json" % (prop, _slug(cls), seed, v["run"]))
+        rep = dict(format=1, property=prop, build="gzero", under="valgrind", origin_seed=seed, tier=tier, stage=v.get("stage"), run_index=v["run"], **{"class": cls},
+                   site=v.get("site", ""), detail=v.get("detail", "")[-1500:], case=cur, minimisation=dict(reexecutions=execs))
+        with open(path, "w") as f:
+            json.dump(rep, f, indent=1)
+        return dict(path=path, cls=cls, site=v.get("site", ""))
     classes, raw = R.evaluate_case(variant, case, timeout=300)
     if cls not in classes and cls.startswith("c12:nondeterminism"):
         # An outcome that depends on leftover heap contents depends on what the process did before: reproduce it
